@@ -237,7 +237,7 @@ class P:
                     self.eat(",")
                 self.expect(")")
                 return ("pctor", segs, args)
-            if len(segs) == 1 and segs[0] not in ("None", "true", "false") and segs[0][0].islower():
+            if len(segs) == 1 and segs[0] not in ("None", "true", "false") and (segs[0][0].islower() or segs[0][0] == "_"):
                 return ("pvar", segs[0])
             return ("pctor", segs, [])
         raise SyntaxError("pattern? %r" % (self.peek(),))
@@ -494,7 +494,7 @@ def src_text(e):
     return "?"
 
 
-NOARG_STRUCTS = {"CompleteOnUnwind", "BufferedIter"}
+NOARG_STRUCTS = {"CompleteOnUnwind", "BufferedIter", "Taken"}
 
 
 class Emitter:
@@ -959,6 +959,7 @@ class MEmitter(PEmitter):
     # a sequence of statements (+ final value) -> chunks; the first line of a chunk is relative, embedded lines are absolute
     def stmts(self, stmts, final, ind, tail=None, capture=None):
         lines = []
+        declared_owned = []
         sub_scope = len(self.scope)
         stmts = list(stmts)
         i = 0
@@ -1016,6 +1017,7 @@ class MEmitter(PEmitter):
                     lines.append("let %s := %s" % (self.pat(st[1]), a))
                 for v in pat_vars(st[1], []):
                     self.bind(v)
+                self.after_let(st, lines, declared_owned)
             else:
                 lines += self.stmt_expr(st[1], ind)
             i += 1
@@ -1039,12 +1041,25 @@ class MEmitter(PEmitter):
         elif final[0] == "loop" and not has_node(final[1], "break"):
             lines += self.stmt_expr(final, ind)
             lines.append("m_unreachable")
+        elif final[0] in ("unsafe", "block") and (final[1] if final[0] == "unsafe" else final)[2] is None:
+            # a block without a value in tail position: its statements (they may mutate the locals)
+            lines += self.stmt_expr(final, ind)
+            lines.append("pure ()")
         else:
             ls, a = self.ex(final, ind)
             lines += ls
             lines.append("pure %s" % a)
+        extra = self.end_of_block(declared_owned, final)
+        if extra:
+            lines = lines[:-1] + extra + lines[-1:]
         del self.scope[sub_scope:]
         return lines
+
+    def after_let(self, st, lines, declared_owned):
+        pass
+
+    def end_of_block(self, declared, final):
+        return []
 
     def value_stmt(self, e, ind, r):
         """statements that leave the value of `e` in the mutable variable `r` (as `some value`)"""
@@ -1348,8 +1363,11 @@ PTARGETS += [
 P_OUT = os.path.join(os.path.dirname(OUT), "ProtoIter.lean")
 
 
-def main_prog():
-    """second pass: the blocking functions of `ConIterOfIter` as program trees -> Generated/ProtoIter.lean"""
+def main_prog(PTARGETS=None, P_OUT=None, own=False):
+    """second pass: the blocking functions of `ConIterOfIter` as program trees -> Generated/ProtoIter.lean;
+    third pass (`own`): the owner-side code of the consuming kinds -> Generated/Own.lean (prelude RS/Own.lean)"""
+    if PTARGETS is None:
+        PTARGETS, P_OUT = globals()["PTARGETS"], globals()["P_OUT"]
     nsf = {}
     for t in PTARGETS:
         nsf.setdefault(t["ns"], set()).update(t["fns"])
@@ -1363,16 +1381,30 @@ def main_prog():
             if t.get("drop_self"):
                 # the function takes `self` by value: it is dropped when the function returns
                 ast = ("block", ast[1] + ([("expr", ast[2])] if ast[2] is not None else []) + [("expr", ("mcall", ("id", "self"), "drop", []))], None)
+            by_value = own and re.match(r"^\s*(mut\s+)?self\s*(,|$)", params) is not None
+            forgets = 'mem_forget self' in repr_calls(ast)
+            if by_value and not forgets:
+                # the same for a function with a result: the tail expression is evaluated, then `self` is dropped
+                ast = ("block", ast[1] + [("let", ("pvar", "ret__"), ast[2]), ("expr", ("mcall", ("id", "self"), "drop", []))], ("id", "ret__"))
             scope = ([("self", t["self_ty"])] if has_self else []) + [(n, ty) for (n, ty) in plist]
-            recv = {"guard": ("Guard", nsf["Guard"])}
+            recv = {} if own else {"guard": ("Guard", nsf["Guard"])}
             for k, v in t.get("recv", {}).items():
                 recv[k] = (v, nsf.get(v, set()))
-            is_mut = fn in t.get("mutable", [])
-            cls = MEmitter if is_mut else PEmitter
-            em = cls(t["ns"], nsf[t["ns"]], recv, [], fn, scope, t.get("lets", {}))
+            is_mut = own or fn in t.get("mutable", [])
+            cls = OEmitter if own else (MEmitter if is_mut else PEmitter)
+            em = cls(t["ns"], nsf[t["ns"]], recv, t.get("consts", []), fn, scope, t.get("lets", {}))
             mut_self = is_mut and re.search(r"&\s*mut\s+self", params) is not None
+            if own:
+                em.prepare(ast)
+                em.self_struct = "Taken" if t["ns"] == "Taken" else None
+                em.recv["TakenTy__"] = ("Taken", nsf["Taken"])
             term = fn_body_mut(em, ast, 2, mut_self) if is_mut else em.do_block(ast, 2)
-            sig = " {ρ' : Type} (fuel : Nat)" + "".join(" (%s : %s)" % (lid(n), ty) for (n, ty) in scope)
+            sig = " {ρ' : Type} (fuel : Nat)" + "".join(" (%s : Nat)" % c for c in t.get("consts", [])) + "".join(" (%s : %s)" % (lid(n), ty) for (n, ty) in scope)
+            if t.get("consts"):
+                for ns2, fns2 in nsf.items():
+                    if ns2 == t["ns"]:
+                        for f2 in fns2:
+                            term = re.sub(r"\b%s\.%s fuel\b(?! N\b)" % (ns2, re.escape(lid(f2))), "%s.%s fuel N" % (ns2, lid(f2)), term)
             for (hn, htext) in em.hoisted:
                 chunks.append((hn, htext, htext))
             name = "%s.%s" % (t["ns"], lid(fn))
@@ -1394,7 +1426,13 @@ def main_prog():
     for n in names:
         visit(n)
     text_of = {c[0]: c[1] for c in chunks}
-    body = ("/- GENERATED by tools/rs2lean.py from the Rust sources on every run -- do not edit. -/\n"
+    if own:
+        body = ("/- GENERATED by tools/rs2lean.py from the Rust sources on every run -- do not edit. -/\n"
+                "import Orx.RS.Own\nset_option linter.unusedVariables false\nnamespace Orx.GenO\nopen Orx Orx.RSO\n"
+                "open Orx.RS (AtomicH CounterSelf Next NextChunk Ord3)\n\n" +
+                "\n".join(text_of[n] for n in order) + "\n" + own_facts() + "end Orx.GenO\n")
+    else:
+        body = ("/- GENERATED by tools/rs2lean.py from the Rust sources on every run -- do not edit. -/\n"
             "import Orx.RS.Prog\nset_option linter.unusedVariables false\nnamespace Orx.GenP\nopen Orx Orx.RSP\n"
             "open Orx.RS (AtomicH CounterSelf AtomicBoolH Next NextChunk Ord3)\n\n" +
             "\n".join(text_of[n] for n in order) + "\nend Orx.GenP\n")
@@ -1402,6 +1440,173 @@ def main_prog():
     if old != body:
         open(P_OUT, "w").write(body)
     return report
+
+
+
+# ---------------------------------------------------------------------------------------------------
+# third pass: owner-side code of the consuming kinds (prelude Orx/RS/Own.lean)
+
+OWNED_TYPES = {"VecVal"}
+MUT_PRIMS = {"set_len", "split_off"}          # `&mut self` std methods: the primitive returns (result, new receiver)
+CONSUMING = {"into_iter"}                     # methods taking `self` by value
+
+
+class OEmitter(MEmitter):
+    """MEmitter + owned locals: a `let` of an owned type is registered (`m_owned_push`), kept up to date after every
+    mutation (`m_owned_set`), forgotten when it is moved (`m_owned_forget`) and dropped at the end of its block
+    (`m_owned_drop`); `m_fn` drops what is still registered when the function unwinds."""
+
+    MUT_FNS = set()
+
+    def __init__(self, *a, **kw):
+        super().__init__(*a, **kw)
+        self.owned_id = {}
+        self.live = []           # owned locals alive, in declaration order
+
+    def gen_call(self, fn):
+        if fn.startswith("m_"):
+            return fn
+        if self.consts and fn.split(".")[0] == self.ns:
+            return fn + " fuel " + " ".join(self.consts)
+        return fn + " fuel"
+
+    def prepare(self, ast):
+        # every use of an owned local outside the recognised positions is outside the subset
+        for n, ty in self.let_types.items():
+            if ty in OWNED_TYPES:
+                self.owned_id[n] = len(self.owned_id)
+
+    def is_owned(self, e):
+        return e[0] == "id" and e[1] in self.owned_id and e[1] in self.live
+
+    def forget(self, n):
+        self.live.remove(n)
+        return ["let _ ← m_owned_forget %d" % self.owned_id[n]]
+
+    def ex(self, e, ind):
+        k = e[0]
+        if k == "mcall" and e[2] in MUT_PRIMS and e[1][0] == "id":
+            n = e[1][1]
+            ls, atoms = [], []
+            for x in e[3]:
+                l, a = self.ex(x, ind)
+                ls += l
+                atoms.append(a)
+            t = self.fresh()
+            ls.append("let %s ← m_%s %s" % (t, e[2], " ".join([lid(n)] + atoms)))
+            ls.append("%s := %s.2" % (lid(n), t))
+            if n in self.live:
+                ls.append("let _ ← m_owned_set %d %s" % (self.owned_id[n], lid(n)))
+            return ls, "%s.1" % t
+        if k == "mcall" and e[2] in CONSUMING and self.is_owned(e[1]):
+            ls, a = MEmitter.ex(self, e, ind)
+            return ls + self.forget(e[1][1]), a
+        if k == "call" and e[1][0] == "path" and e[1][1][-2:] == ["Taken", "new"]:
+            ls, a = MEmitter.ex(self, ("mcall", ("id", "TakenTy__"), "new", e[2]), ind)
+            return [l.replace(" TakenTy__", "") for l in ls], a
+        if k == "call":
+            moved = [x[1] for x in e[2] if self.is_owned(x)]
+            ls, a = MEmitter.ex(self, e, ind)
+            for n in moved:
+                ls += self.forget(n)
+            return ls, a
+        if k == "path" and len(e[1]) >= 2 and e[1][-1] == "uninit":
+            return [], "MaybeUninit_uninit"
+        return MEmitter.ex(self, e, ind)
+
+    def stmt_expr(self, e, ind):
+        if e[0] == "assign" and e[1] == "=" and e[2][0] == "unary" and e[2][1] == "*" and e[2][2][0] == "id":
+            ls, a = self.ex(e[3], ind)
+            return ls + ["let _ ← m_write_cell %s %s" % (lid(e[2][2][1]), a)]
+        return MEmitter.stmt_expr(self, e, ind)
+
+    def after_let(self, st, lines, declared_owned):
+        if st[1][0] == "pvar" and st[1][1] in self.owned_id:
+            n = st[1][1]
+            lines.append("let _ ← m_owned_push %d %s" % (self.owned_id[n], lid(n)))
+            self.live.append(n)
+            declared_owned.append(n)
+
+    def end_of_block(self, declared, final):
+        out = []
+        if final is not None and final[0] == "id" and final[1] in declared and final[1] in self.live:
+            out += self.forget(final[1])
+        for n in reversed(declared):
+            if n in self.live:
+                self.live.remove(n)
+                out.append("let _ ← m_owned_drop %d" % self.owned_id[n])
+        return out
+
+
+O_OUT = os.path.join(os.path.dirname(OUT), "Own.lean")
+TK = "iter/implementors/taken.rs"
+VR = "iter/implementors/vec.rs"
+AR = "iter/implementors/array.rs"
+OTARGETS = [
+    dict(ns="Counter", file="iter/atomic_counter.rs", impl=r"impl AtomicCounter", fns=["fetch_and_add", "fetch_and_increment", "current", "swap"], self_ty="CounterSelf"),
+    dict(ns="Taken", file=TK, impl=r"impl<T> Taken<T>", fns=["new"], self_ty=None, params={"ptr": "Ptr"}),
+    dict(ns="Taken", file=TK, impl=r"impl<T> Iterator for Taken<T>", fns=["next", "size_hint"], self_ty="Taken"),
+    dict(ns="Taken", file=TK, impl=r"impl<T> Drop for Taken<T>", fns=["drop"], self_ty="Taken"),
+    dict(ns="Vec", file=VR, impl=r"impl<T: Send \+ Sync> Drop for ConIterOfVec", fns=["drop"], self_ty="VecSelf", lets={"vec": "VecVal"}),
+    dict(ns="Vec", file=VR, impl=r"impl<T: Send \+ Sync> ConIterOfVec", fns=["take_one", "take_slice", "split_off_right"], self_ty="VecSelf",
+         lets={"left_vec": "VecVal", "right_vec": "VecVal", "value": "MaybeUninitH"}),
+    dict(ns="Vec", file=VR, impl=r"AtomicIter<T> for ConIterOfVec", fns=["counter", "progress_and_get_begin_idx", "get", "fetch_n", "early_exit"], self_ty="VecSelf"),
+    dict(ns="Vec", file=VR, impl=r"AtomicIterWithInitialLen<T> for ConIterOfVec", fns=["initial_len"], self_ty="VecSelf"),
+    dict(ns="Vec", file="iter/atomic_iter.rs", impl=r"trait AtomicIter<", fns=["fetch_one"], self_ty="VecSelf"),
+    dict(ns="Vec", file=VR, impl=r"ConcurrentIter for ConIterOfVec", fns=["into_seq_iter"], self_ty="VecSelf",
+         lets={"remaining_vec": "VecVal"}),
+    dict(ns="Arr", file=AR, impl=r"Drop for ConIterOfArray", fns=["drop"], self_ty="ArrSelf", consts=["N"], lets={"_remaining_vec_to_be_dropped": "VecVal"}),
+    dict(ns="Arr", file=AR, impl=r"impl<const N: usize, T: Send \+ Sync> ConIterOfArray", fns=["take_one", "take_slice", "split_off_right"], self_ty="ArrSelf",
+         consts=["N"], lets={"value": "MaybeUninitH"}),
+    dict(ns="Arr", file=AR, impl=r"AtomicIter<T> for ConIterOfArray", fns=["counter", "progress_and_get_begin_idx", "get", "fetch_n", "early_exit"], self_ty="ArrSelf", consts=["N"]),
+    dict(ns="Arr", file=AR, impl=r"AtomicIterWithInitialLen<T> for ConIterOfArray", fns=["initial_len"], self_ty="ArrSelf", consts=["N"]),
+    dict(ns="Arr", file="iter/atomic_iter.rs", impl=r"trait AtomicIter<", fns=["fetch_one"], self_ty="ArrSelf", consts=["N"]),
+    dict(ns="Arr", file=AR, impl=r"ConcurrentIter for ConIterOfArray", fns=["into_seq_iter"], self_ty="ArrSelf", consts=["N"],
+         lets={"remaining_vec": "VecVal"}),
+]
+
+
+def repr_calls(e, acc=None):
+    """`f x` for every call of a path / identifier on a single identifier argument, as text"""
+    top = acc is None
+    acc = [] if top else acc
+    if isinstance(e, tuple):
+        if e and e[0] == "call" and len(e[2]) == 1 and e[2][0][0] == "id":
+            f = e[1]
+            name = "_".join(f[1][-2:]) if f[0] == "path" else (f[1] if f[0] == "id" else "?")
+            acc.append("%s %s" % (name, e[2][0][1]))
+        for x in e:
+            repr_calls(x, acc)
+    elif isinstance(e, list):
+        for x in e:
+            repr_calls(x, acc)
+    return " ; ".join(acc) if top else None
+
+
+def impl_fn_names(text, impl_pat):
+    """names of the functions defined in the first impl block matching impl_pat"""
+    for m in re.finditer(r"^(?:unsafe\s+)?impl\b[^{;]*\{", text, flags=re.M):
+        if re.search(impl_pat, m.group(0)):
+            end = match_brace(text, m.end() - 1)
+            return re.findall(r"\bfn\s+(\w+)", text[m.end():end])
+    raise LookupError("no impl matching " + impl_pat)
+
+
+def own_facts():
+    """facts about the source that the ownership theorems read besides the function bodies"""
+    tk = strip_comments(open(os.path.join(SRC, TK)).read())
+    names = impl_fn_names(tk, r"impl<T> Iterator for Taken<T>")
+    out = ["/-- the methods of `Iterator` that `Taken` overrides (every other one is std's default, built on `next`) -/",
+           "def Taken.iterator_overrides : List String := [%s]\n" % ", ".join('"%s"' % n for n in names)]
+    for (ns, f, field) in (("Vec", VR, "vec"), ("Arr", AR, "array")):
+        txt = strip_comments(open(os.path.join(SRC, f)).read())
+        sm = re.search(r"\bstruct\s+ConIterOf\w+[^{;]*\{", txt)
+        blk = txt[sm.end():match_brace(txt, sm.end() - 1)] if sm else ""
+        m = re.search(r"\b%s\s*:\s*([^\n]*?),\s*\n" % field, blk)
+        ty = m.group(1).strip() if m else "?"
+        out.append("/-- the type of the storage field `%s` (a `ManuallyDrop`: no destructor runs for the field itself) -/" % field)
+        out.append('def %s.storage_field_type : String := "%s"\n' % (ns, re.sub(r"\s+", "", ty)))
+    return "\n".join(out) + "\n"
 
 
 def ns_functions():
@@ -1530,6 +1735,7 @@ def main():
     if old != body:
         open(OUT, "w").write(body)
     report += main_prog()
+    report += main_prog(OTARGETS, O_OUT, own=True)
     bad = [(ns, fn, u) for (ns, fn, u) in report if u]
     print("rs2lean: %d functions translated, %d with unsupported constructs" % (len(report), len(bad)))
     for (ns, fn, u) in bad:
